@@ -23,6 +23,11 @@
  *                                                       q / x: also load the PERMUTED text as written / wrapped (Concurrency 1): rules in
  *                                                       reverse order (in front of the objects), the statements of each rule in reverse
  *                                                       order (in front of the attributes), services and hosts in reverse order
+ *   L ... late=<h>[,<h>!<s>]...                         | ... l1=<res>   two-stage commit: everything except the named hosts (with their
+ *                                                       services) and services, then - same process, new ActivationContext - those
+ *   A <H|S> <expr> <fv> [p=<expr>]                      p=: the query comes from an ApiUser with permissions = [ { permission = "*",
+ *                                                       filter = {{ <expr> }} } ]; observation gains pb=<bits>: truth of the permission filter per
+ *                                                       H / S line of the queried type (E: raised)
  *   A <H|S> <expr> <fv>                                 | fast=<ares> slow=<ares> dups=<n> nf=<n> ns=<n> qf=<c> qs=<c> af=<c> as=<c>
  *                                                       nf/ns: entries FilterUtility::GetFilterTargets returned (-1: raised) for the filter as
  *                                                       written / wrapped; qf/qs and af/as: entries of `results` of GET /v1/objects/<type> and
@@ -379,7 +384,7 @@ struct RuleL {
 	std::vector<std::string> assigns, ignores, uses;
 	std::vector<std::pair<char, std::string>> stmts;  /* the a= / i= tokens in the order given: the order of the statements */
 };
-struct ALine { char type = 'H'; std::string expr, fv; };
+struct ALine { char type = 'H'; std::string expr, fv, perm; };  /* perm: the ApiUser's permission filter (prefix form), "" = unrestricted */
 
 struct Case {
 	std::vector<std::string> lines;  /* normalised, observations stripped */
@@ -394,6 +399,7 @@ struct Case {
 	std::vector<int> concs;
 	bool hasL = false;
 	bool permQ = false, permX = false;  /* L ... q / x: also load the permuted text as written (q1=) / wrapped (x1=) */
+	std::vector<std::string> late;      /* L ... late=<h>,<h>!<s>: hosts (with their services) and services committed in a second stage (l1=) */
 	std::vector<ALine> alines;
 };
 
@@ -489,9 +495,18 @@ static void ParseCaseLine(Case& c, const std::string& line)
 		}
 		c.rules.push_back(r);
 	} else if (w[0] == "L") {
-		if ((w.size() != 2 && w.size() != 3) || c.hasL) throw Bad("bad L line");
-		if (w.size() == 3) {
-			for (char ch : w[2]) {
+		if (w.size() < 2 || w.size() > 4 || c.hasL) throw Bad("bad L line");
+		for (size_t i = 2; i < w.size(); i++) {
+			if (w[i].compare(0, 5, "late=") == 0) {
+				if (!c.late.empty()) throw Bad("bad L line");
+				for (auto& n : Split(w[i].substr(5), ',')) {
+					if (n.empty() || n == "zp") throw Bad("bad late target");
+					c.late.push_back(n);
+				}
+				if (c.late.empty()) throw Bad("bad late list");
+				continue;
+			}
+			for (char ch : w[i]) {
 				if (ch == 'q') c.permQ = true;
 				else if (ch == 'x') c.permX = true;
 				else throw Bad("bad L variants");
@@ -504,9 +519,13 @@ static void ParseCaseLine(Case& c, const std::string& line)
 		}
 		c.hasL = true;
 	} else if (w[0] == "A") {
-		if (w.size() != 4 || (w[1] != "H" && w[1] != "S")) throw Bad("bad A line");
+		if ((w.size() != 4 && w.size() != 5) || (w[1] != "H" && w[1] != "S")) throw Bad("bad A line");
 		ALine a;
 		a.type = w[1][0]; a.expr = w[2]; a.fv = w[3];
+		if (w.size() == 5) {
+			if (w[4].compare(0, 2, "p=") != 0 || w[4].size() < 3) throw Bad("bad A permission filter");
+			a.perm = w[4].substr(2);
+		}
 		c.alines.push_back(a);
 	} else
 		throw Bad("unknown line '" + line + "'");
@@ -627,6 +646,28 @@ static std::string ConfigText(const Case& c, bool rules, bool wrap, bool perm)
 		for (auto it = c.hosts.rbegin(); it != c.hosts.rend(); ++it) t += HostText(*it);
 	}
 	return t;
+}
+
+/* The configuration of a case in two stages (`L ... late=`): first everything except the late hosts (with their services) and
+ * the late services, then - in a second commit with an ActivationContext of its own, the way ConfigObjectUtility::CreateObject
+ * commits a runtime-created object - the late objects. The apply rules are all part of the first stage. */
+static bool IsLateHost(const Case& c, const std::string& h)
+{
+	return std::find(c.late.begin(), c.late.end(), h) != c.late.end();
+}
+
+static bool IsLateSvc(const Case& c, const SvcL& s)
+{
+	return IsLateHost(c, s.host) || std::find(c.late.begin(), c.late.end(), s.host + "!" + s.name) != c.late.end();
+}
+
+static void StageTexts(const Case& c, std::string& first, std::string& second)
+{
+	first = GlobalsText(c);
+	second.clear();
+	for (auto& h : c.hosts) (IsLateHost(c, h.name) ? second : first) += HostText(h);
+	for (auto& s : c.svcs) (IsLateSvc(c, s) ? second : first) += SvcText(s);
+	for (auto& r : c.rules) first += RuleText(c, r, false, false);
 }
 
 /* ------------------------------------------------------------------------------------------ child */
@@ -791,14 +832,15 @@ static char EvalAtom(Expression *e, const Host::Ptr& host, const Service::Ptr& s
 }
 
 static std::string RunQuery(const char *type, const std::string& filter, const Dictionary::Ptr& fvars, const ApiUser::Ptr& user, int *dups,
-	int *total = nullptr)
+	int *total = nullptr, bool restricted = false)
 {
 	if (dups) *dups = 0;
 	if (total) *total = -1;
 	try {
 		QueryDescription qd;
 		qd.Types.insert(type);
-		qd.Permission = "";
+		/* a restricted user: the permission the object query handler asks for, so that CheckPermission hands out the user's filter */
+		qd.Permission = restricted ? "objects/query/" + String(type) : String("");
 		Dictionary::Ptr query = new Dictionary();
 		query->Set("type", String(type));
 		query->Set("filter", String(filter));
@@ -927,7 +969,7 @@ static int ChildMain(const std::string& variant, int conc)
 	}
 
 	Case c;
-	std::string text;
+	std::string text, text2;
 	try {
 		std::string raw, line;
 		char buf[4096];
@@ -943,6 +985,12 @@ static int ChildMain(const std::string& variant, int conc)
 		else if (variant == "perm") text = Preamble() + ConfigText(c, true, false, true);
 		else if (variant == "permwrap") text = Preamble() + ConfigText(c, true, true, true);
 		else if (variant == "inv") text = Preamble() + ConfigText(c, false, false, false);
+		else if (variant == "late") {
+			if (c.late.empty()) throw Bad("late variant without late targets");
+			std::string first;
+			StageTexts(c, first, text2);
+			text = Preamble() + first;
+		}
 		else throw Bad("bad variant");
 	} catch (const std::exception& ex) {
 		printf("FATAL %s\n", ex.what());
@@ -955,7 +1003,10 @@ static int ChildMain(const std::string& variant, int conc)
 
 	try {
 		if (variant == "inv") {
-			for (auto& a : c.alines) CheckRendering(a.expr, c.atoms);
+			for (auto& a : c.alines) {
+				CheckRendering(a.expr, c.atoms);
+				if (!a.perm.empty()) CheckRendering(a.perm, c.atoms);
+			}
 		} else {
 			for (auto& r : c.rules) {
 				for (auto& a : r.assigns) CheckRendering(a, c.atoms);
@@ -971,6 +1022,12 @@ static int ChildMain(const std::string& variant, int conc)
 	std::string err;
 	bool ok = LoadConfig(text, conc, err);
 	if (!ok) DebugText("load error", err);
+	if (ok && variant == "late") {
+		/* the second stage: the same process, the same rule registry, a new ActivationContext */
+		DebugText("cfg2", text2);
+		ok = LoadConfig(text2, conc, err);
+		if (!ok) DebugText("load error (stage 2)", err);
+	}
 
 	if (variant != "inv") {
 		printf("R %s\n", ok ? ObserveObjects(c).c_str() : "rejected");
@@ -992,15 +1049,45 @@ static int ChildMain(const std::string& variant, int conc)
 			for (auto& s : svcs) sb += s ? EvalAtom(e.get(), s->GetHost(), s) : '?';
 			printf("O h=%s s=%s\n", hb.empty() ? "-" : hb.c_str(), sb.empty() ? "-" : sb.c_str());
 		}
-		ApiUser::Ptr user = new ApiUser();
-		user->SetName("c16");
-		user->SetPermissions(new Array({ String("*") }));
+		ApiUser::Ptr user0 = new ApiUser();
+		user0->SetName("c16");
+		user0->SetPermissions(new Array({ String("*") }));
 		if (ok && !c.alines.empty()) InitHttp();
 		for (auto& a : c.alines) {
 			if (!ok) { printf("A fast=? slow=? dups=0\n"); continue; }
-			std::string fast, slow, qf, qs, af, as;
+			std::string fast, slow, qf, qs, af, as, pb;
 			int dups = 0, nf = -1, ns = -1;
+			ApiUser::Ptr user = user0;
+			bool restricted = !a.perm.empty();
 			try {
+				if (restricted) {
+					/* an ApiUser whose permissions carry a filter function: permissions = [ { permission = "*", filter = {{ P }} } ].
+					 * pb=: the truth of P per object of the queried type, evaluated the way EvaluatePermissionFilter does it
+					 * (FilterUtility::EvaluateFilter in a namespace of its own), one object at a time */
+					std::string pdsl = Dsl(ParseExpr(a.perm), c.atoms);
+					std::unique_ptr<Expression> pe = ConfigCompiler::CompileText("<perm>", "{{ " + pdsl + " }}");
+					ScriptFrame pframe(true);
+					Value fn = pe->Evaluate(pframe);
+					Dictionary::Ptr pd = new Dictionary();
+					pd->Set("permission", String("*"));
+					pd->Set("filter", fn);
+					user = new ApiUser();
+					user->SetName("c16r");
+					user->SetPermissions(new Array({ Value(pd) }));
+					std::unique_ptr<Expression> pfilter;
+					FilterUtility::CheckPermission(user, "objects/query/host", &pfilter);
+					auto bit = [&](const ConfigObject::Ptr& o) -> char {
+						if (!o || !pfilter) return '?';
+						try {
+							Namespace::Ptr ns = new Namespace();
+							ScriptFrame f(false, ns);
+							return FilterUtility::EvaluateFilter(f, pfilter.get(), o) ? '1' : '0';
+						} catch (const std::exception&) { return 'E'; }
+					};
+					if (a.type == 'H') for (auto& h : hosts) pb += bit(h);
+					else for (auto& s : svcs) pb += bit(s);
+					if (pb.empty()) pb = "-";
+				}
 				std::string dsl = Dsl(ParseExpr(a.expr), c.atoms);
 				std::string wrapped = "(" + dsl + ") && true";
 				Dictionary::Ptr fvars;
@@ -1010,8 +1097,8 @@ static int ChildMain(const std::string& variant, int conc)
 				}
 				const char *type = a.type == 'H' ? "Host" : "Service";
 				if (l_Debug) printf("# filter: %s\n", dsl.c_str());
-				fast = RunQuery(type, dsl, fvars, user, &dups, &nf);
-				slow = RunQuery(type, wrapped, fvars, user, nullptr, &ns);
+				fast = RunQuery(type, dsl, fvars, user, &dups, &nf, restricted);
+				slow = RunQuery(type, wrapped, fvars, user, nullptr, &ns, restricted);
 				/* the same two filters through the real handlers: GET /v1/objects/<type> and POST /v1/actions/reschedule-check
 				 * (an action that only sets next_check / force_next_check; every visit of an object is one entry of `results`) */
 				namespace http = boost::beast::http;
@@ -1020,13 +1107,13 @@ static int ChildMain(const std::string& variant, int conc)
 				qs = HttpResults(http::verb::get, otarget, HttpBody(type, wrapped, fvars), user);
 				af = HttpResults(http::verb::post, "/v1/actions/reschedule-check", HttpBody(type, dsl, fvars), user);
 				as = HttpResults(http::verb::post, "/v1/actions/reschedule-check", HttpBody(type, wrapped, fvars), user);
-			} catch (const Bad& ex) {
+			} catch (const std::exception& ex) {
 				printf("FATAL %s\n", ex.what());
 				fflush(stdout);
 				_exit(3);
 			}
-			printf("A fast=%s slow=%s dups=%d nf=%d ns=%d qf=%s qs=%s af=%s as=%s\n", fast.c_str(), slow.c_str(), dups, nf, ns,
-				qf.c_str(), qs.c_str(), af.c_str(), as.c_str());
+			printf("A fast=%s slow=%s dups=%d nf=%d ns=%d qf=%s qs=%s af=%s as=%s%s%s\n", fast.c_str(), slow.c_str(), dups, nf, ns,
+				qf.c_str(), qs.c_str(), af.c_str(), as.c_str(), restricted ? " pb=" : "", pb.c_str());
 		}
 	}
 	printf("END\n");
@@ -1140,7 +1227,7 @@ static int PrintCase(const CaseRun& cr, const std::vector<Job>& jobs)
 			return 3;
 		}
 		if (j.variant == "inv") inv = &j;
-		else byKey[std::string(j.variant == "plain" ? "p" : j.variant == "wrap" ? "w" : j.variant == "perm" ? "q" : "x") + std::to_string(j.conc)] = &j;
+		else byKey[std::string(j.variant == "plain" ? "p" : j.variant == "wrap" ? "w" : j.variant == "perm" ? "q" : j.variant == "late" ? "l" : "x") + std::to_string(j.conc)] = &j;
 	}
 	std::vector<std::string> oobs, aobs, cobs;
 	if (inv) {
@@ -1166,8 +1253,8 @@ static int PrintCase(const CaseRun& cr, const std::vector<Job>& jobs)
 			lobs += (lobs.empty() ? "" : " ") + std::string(v) + std::to_string(conc) + "=" + r[0];
 		}
 	}
-	for (const char *v : { "q", "x" }) {
-		if (!(v[0] == 'q' ? c.permQ : c.permX)) continue;
+	for (const char *v : { "q", "x", "l" }) {
+		if (!(v[0] == 'q' ? c.permQ : v[0] == 'x' ? c.permX : !c.late.empty())) continue;
 		auto it = byKey.find(std::string(v) + "1");
 		std::vector<std::string> r;
 		if (it != byKey.end()) r = OutLines(*it->second, 'R');
@@ -1230,6 +1317,7 @@ static int RunAll(const std::vector<std::string>& lines)
 			ConfigText(cr.c, true, true, false);
 			for (auto& a : cr.c.alines) {
 				Dsl(ParseExpr(a.expr), cr.c.atoms);
+				if (!a.perm.empty()) Dsl(ParseExpr(a.perm), cr.c.atoms);
 				if (a.fv != "-") for (auto& kv : KvList(a.fv)) ValDsl(kv.second);
 			}
 		} catch (const std::exception& ex) {
@@ -1249,6 +1337,7 @@ static int RunAll(const std::vector<std::string>& lines)
 		}
 		if (cr.c.permQ) add("perm", 1);
 		if (cr.c.permX) add("permwrap", 1);
+		if (!cr.c.late.empty()) add("late", 1);
 		cr.remaining = (int)cr.jobs.size();
 	}
 
@@ -1322,6 +1411,7 @@ struct Gen {
 	std::vector<std::string> created;         /* short names of services the case's S->H rules can create (cascade cases) */
 	bool useCreated = false;                  /* the rule being generated is a ->S rule of a cascade case */
 	std::vector<std::string> boundH, boundS;  /* names EvaluateFilter binds for a Host / Service target (from `child bound`) */
+	std::vector<std::string> leakNames;       /* constants of the case that share their name with loop / closure variables of its rules */
 
 	explicit Gen(Rng& rng) : r(rng) { }
 
@@ -1705,6 +1795,20 @@ struct Gen {
 		if (avoidZp && !pure && pct(70)) toks.push_back("i=" + Enc(NameCmp("host", "zp")));
 		avoidZp = false;
 		useCreated = false;
+		/* a compared literal becomes a reference to a GLOBAL constant whose name another rule (or this one) uses for a loop or
+		 * closure variable: each rule sees its own variables and the globals, never what another rule bound */
+		if (!leakNames.empty() && !toks.empty() && pct(60)) {
+			size_t ti = r.below(toks.size());
+			P f = ParseExpr(toks[ti].substr(2));
+			auto lits = Nodes(f, [](const P& e) { return e->k == 'S' && e->s != "name"; });
+			if (!lits.empty()) {
+				P n = lits[r.below(lits.size())];
+				n->k = 'V';
+				n->s = leakNames[r.below(leakNames.size())];
+				ruleUses.erase(n->s);
+				toks[ti] = toks[ti].substr(0, 2) + Enc(f);
+			}
+		}
 		/* every interleaving of the assign / ignore statements: half of the rules with several statements are shuffled */
 		if (toks.size() >= 2 && r.coin())
 			for (size_t i = toks.size(); i > 1; i--) std::swap(toks[i - 1], toks[r.below(i)]);
@@ -1797,7 +1901,23 @@ struct Gen {
 			e = RandEx(3, tgt, false);
 			if (r.below(6) == 0) fv = "e";
 		}
-		return std::string("A ") + tgt + " " + Enc(e) + " " + fv;
+		/* ~25 % of the queries come from an ApiUser whose permission carries a filter: mostly a list of names (or its negation) */
+		std::string perm;
+		if (pct(25)) {
+			P pe;
+			int k = (int)r.below(4);
+			if (k < 2) {
+				std::vector<P> l;
+				int n = 1 + (int)r.below(3);
+				for (int i = 0; i < n; i++)
+					l.push_back(tgt == 'S' && r.coin() ? NameCmp("service", PickSvc().second) : NameCmp("host", PickHost()));
+				pe = Clone(Fold(l));
+				if (k == 1) pe = Not(pe);
+			} else if (k == 2) pe = Clone(Disjunct(tgt));
+			else pe = RandEx(2, tgt, false);
+			perm = " p=" + Enc(pe);
+		}
+		return std::string("A ") + tgt + " " + Enc(e) + " " + fv + perm;
 	}
 
 	void GenCase(int idx, bool both, std::vector<std::string>& out)
@@ -1830,6 +1950,17 @@ struct Gen {
 			out.push_back("K NUM #1");
 			out.push_back("K NAMEF 'name");
 		}
+		/* ~12 % of the cases: global constants named like the loop variables (k, v) and the closure variable (ux) of the rules */
+		leakNames.clear();
+		bool leak = pct(12);
+		bool leakUx = false;
+		if (leak) {
+			static const char *hn[] = { "'h0", "'h1", "'h2", "'a", "'s0" };
+			out.push_back(std::string("K k ") + hn[r.below(5)]);
+			leakNames.push_back("k");
+			if (r.coin()) { out.push_back(std::string("K v ") + hn[r.below(5)]); leakNames.push_back("v"); }
+			if (r.coin()) { out.push_back(std::string("K ux ") + hn[r.below(3)]); leakNames.push_back("ux"); leakUx = true; }
+		}
 		int nh = 1 + (int)r.below(6);
 		std::vector<int> hidx = { 0, 1, 2, 3, 4, 5 };
 		for (int i = 5; i > 0; i--) std::swap(hidx[i], hidx[r.below(i + 1)]);
@@ -1852,7 +1983,8 @@ struct Gen {
 			}
 		}
 		/* U lines (top-level variables for use() closures) go between the constants and the inventory */
-		if (pct(20)) {
+		if (leakUx) { out.push_back("U ux '" + PickHost()); uvars.insert("ux"); }
+		else if (pct(20)) {
 			int nu = 1 + (int)r.below(2);
 			std::vector<int> ui = { 0, 1, 2 };
 			for (int i = 2; i > 0; i--) std::swap(ui[i], ui[r.below(i + 1)]);
@@ -1898,7 +2030,22 @@ struct Gen {
 		for (int i = 0; i < nr; i++)
 			if (rk[i] != 0) rl[i] = GenRule(i, kinds[rk[i]][0], kinds[rk[i]][1], cascade && kinds[rk[i]][1] == 'S');
 		for (auto& l : rl) out.push_back(l);
-		out.push_back(both ? "L 1,16 qx" : "L 1 q");
+		/* two-stage commit: a non-empty set of hosts (never zp; their services go with them), sometimes also a single service of
+		 * a host of the first stage, is committed after the rest of the configuration */
+		std::string late;
+		if (pct(70)) {
+			std::vector<std::string> lh;
+			std::vector<std::string> cand;
+			for (auto& h : hosts) if (h != "zp") cand.push_back(h);
+			for (auto& h : cand) if (r.coin()) lh.push_back(h);
+			if (lh.empty() && !cand.empty()) lh.push_back(cand[r.below(cand.size())]);
+			if (pct(20) && !svcs.empty()) {
+				auto& sv = svcs[r.below(svcs.size())];
+				if (std::find(lh.begin(), lh.end(), sv.first) == lh.end()) lh.push_back(sv.first + "!" + sv.second);
+			}
+			if (!lh.empty()) late = " late=" + Join(lh, ",");
+		}
+		out.push_back((both ? "L 1,16 qx" : "L 1 q") + late);
 		int nq = (int)r.below(5);
 		for (int i = 0; i < nq; i++) out.push_back(GenA());
 	}
